@@ -113,7 +113,7 @@ func NewClient[Req, Res any](httpClient HTTPClient, url string, options ...Clien
 // CallUnary calls a request-response procedure.
 func (c *Client[Req, Res]) CallUnary(ctx context.Context, request *Request[Req]) (*Response[Res], error) {
 	if c.err != nil {
-		return nil, c.err
+		return nil, c.constructionError()
 	}
 	return c.callUnary(ctx, request)
 }
@@ -121,7 +121,7 @@ func (c *Client[Req, Res]) CallUnary(ctx context.Context, request *Request[Req])
 // CallClientStream calls a client streaming procedure.
 func (c *Client[Req, Res]) CallClientStream(ctx context.Context) *ClientStreamForClient[Req, Res] {
 	if c.err != nil {
-		return &ClientStreamForClient[Req, Res]{err: c.err}
+		return &ClientStreamForClient[Req, Res]{err: c.constructionError()}
 	}
 	return &ClientStreamForClient[Req, Res]{conn: c.newConn(ctx, StreamTypeClient)}
 }
@@ -129,7 +129,7 @@ func (c *Client[Req, Res]) CallClientStream(ctx context.Context) *ClientStreamFo
 // CallServerStream calls a server streaming procedure.
 func (c *Client[Req, Res]) CallServerStream(ctx context.Context, request *Request[Req]) (*ServerStreamForClient[Res], error) {
 	if c.err != nil {
-		return nil, c.err
+		return nil, c.constructionError()
 	}
 	conn := c.newConn(ctx, StreamTypeServer)
 	mergeHeaders(conn.RequestHeader(), request.header)
@@ -150,9 +150,23 @@ func (c *Client[Req, Res]) CallServerStream(ctx context.Context, request *Reques
 // CallBidiStream calls a bidirectional streaming procedure.
 func (c *Client[Req, Res]) CallBidiStream(ctx context.Context) *BidiStreamForClient[Req, Res] {
 	if c.err != nil {
-		return &BidiStreamForClient[Req, Res]{err: c.err}
+		return &BidiStreamForClient[Req, Res]{err: c.constructionError()}
 	}
 	return &BidiStreamForClient[Req, Res]{conn: c.newConn(ctx, StreamTypeBidi)}
+}
+
+// constructionError returns the error that every call on a client with invalid
+// options fails with. Errors are mutable (Meta, AddDetail) and clients are
+// shared between goroutines, so each call gets an error value of its own.
+func (c *Client[Req, Res]) constructionError() error {
+	var connectErr *Error
+	if !errors.As(c.err, &connectErr) {
+		return c.err
+	}
+	clone := *connectErr
+	clone.meta = connectErr.meta.Clone()
+	clone.details = append([]ErrorDetail(nil), connectErr.details...)
+	return &clone
 }
 
 func (c *Client[Req, Res]) newConn(ctx context.Context, streamType StreamType) StreamingClientConn {
